@@ -145,18 +145,17 @@ theorem widthOK_of_render (cc : CharClass) (st : WSt) (cm : Bool) (columns : Nat
       exact label_render_fits cc (k.label i) s hs row hrow
   · intro i hi
     rw [hlen] at hi
-    exact hroom' i hi
+    exact Or.inl (hroom' i hi)
 
 /-- `LayoutOK` is `WidthOK` plus one-row labels -/
 theorem layoutOK_of_widthOK {used : Int} {labels : List (Option NumW)} {grids : List Grid}
     (wo : WidthOK used labels grids)
     (hrows : ∀ i, i < grids.length → (labelBuf labels i).length ≤ 1) : LayoutOK used labels grids :=
-  ⟨wo.used_pos, wo.len, wo.item_fits, hrows, wo.label_fits, fun i hi => Or.inl (wo.label_room i hi)⟩
+  ⟨wo.used_pos, wo.len, wo.item_fits, hrows, wo.label_fits, wo.label_room⟩
 
 theorem widthOK_of_layoutOK {used : Int} {labels : List (Option NumW)} {grids : List Grid}
-    (ok : LayoutOK used labels grids)
-    (hroom : ∀ i, i < grids.length → (labelLen labels i : Int) < used) : WidthOK used labels grids :=
-  ⟨ok.used_pos, ok.len, ok.item_fits, ok.label_fits, hroom⟩
+    (ok : LayoutOK used labels grids) : WidthOK used labels grids :=
+  ⟨ok.used_pos, ok.len, ok.item_fits, ok.label_fits, ok.label_room⟩
 
 /-- the labels of a plain key pattern are at most one row high -/
 theorem shape_label_rows {cc : CharClass} {cm : Bool} {columns : Nat} {cw : Option Int} {spacing : Nat}
